@@ -1202,7 +1202,7 @@ func serEntryOK(T []uint64, off int, ntype Tag, vb []byte) bool {
 }
 
 //@ func (*Serializer).Serialize variant values
-//@   props C11
+//@   props C11 C17
 //@   opt safety off
 //@   requires len(pj.Tape) < 1<<40 && pj.Strings != nil
 //@   assertat `s.tagsBuf[tagsOff] = uint8(ntype)` entry: serEntryOK(pj.Tape, off, ntype, s.valuesBuf)
